@@ -145,7 +145,25 @@ class C14(Check):
                 sched["opcode"] = True
                 if not sched.get("p_line"):
                     sched["p_line"] = 0.01
-        if index % 10 == 4:
+        if index % 16 == 13:
+            # volume: hundreds of request/answer pairs through the same application object
+            nvol = rng2.choice([80, 150, 300])
+            del callers[2:]
+            while len(callers) < 2:
+                callers.append({"start": 0.0, "reqs": []})
+            for ci, c in enumerate(callers):
+                c["start"] = 0.0
+                c["reqs"] = [{"worker": rng2.randrange(nworkers), "fate": rng2.choice(["once", "once", "once", "dup"]),
+                              "delay": rng2.choice([0.0, 0.0, 0.0005, 0.002]), "dup_gap": 0.0005,
+                              "stall_on_send": 0.0, "stall_after": None, "stall_dur": 0.002} for _ in range(nvol)]
+            scn["stalls"] = []
+            scn["func_stalls"] = []
+            scn["unsolicited"] = []
+            scn["settle"] = 60.0
+            scn["horizon"] = 120.0
+            scn["max_steps"] = 16_000_000
+            scn["knobs"]["BROMELIA_TICKER"] = max(scn["knobs"]["BROMELIA_TICKER"], 0.0005)
+        elif index % 10 == 4:
             # a slow peer: one answer takes from half a minute to many minutes; meanwhile other callers come
             # and go, and the wall clock may be stepped.  Coarse ticks keep the simulated minutes cheap.
             slow = rng2.choice([31.0, 45.0, 90.0, 400.0])
